@@ -4,8 +4,9 @@ netaddr/strategy/__init__.py (generic codecs), strategy/ipv4.py, ipv6.py, eui48.
 (per-family packed / arpa / word codecs), ip/rfc1924.py and the object-level accessors, as
 the code is NOW (after fix 5385a10: strict character checks in valid_bits / valid_bin).
 
-Conventions: integer arguments and words are `Nat` (negative ints are outside the property's
-domain; the out-of-range value the property names is 2^width); byte strings are `List Nat`
+Conventions: the first part works on `Nat` arguments and words (what a call sees after the
+code's own `0 <=` test); the section "signed arguments" at the end takes `Int` and applies that
+sign test, and is what the driver runs; byte strings are `List Nat`
 with entries < 256; text is `List Char`.  `struct.pack/unpack` are the small functions
 `packField` / `unpackFields` (MODELLED RUNTIME).  Core Lean only.
 -/
@@ -13,6 +14,7 @@ import NetaddrVerif.Model.Basic
 import NetaddrVerif.Model.PyRuntime
 import NetaddrVerif.Gen.Dialects
 import NetaddrVerif.Gen.Base85
+import NetaddrVerif.Model.AddrParse
 namespace NV.Codec
 
 /-! ## generic word codecs (strategy/__init__.py:33-108) -/
@@ -321,5 +323,87 @@ def base85ToIpv6 (s : List Char) : R Nat :=
   if s.length ≠ 20 then .error .addrFormat else do
   let r ← b85Sum s.reverse 0 0
   if r ≤ 2 ^ 128 - 1 then pure r else .error .addrFormat
+
+/-! ## signed arguments
+
+A Python `int` argument may be negative.  The functions below take `Int` where the Python code
+takes an arbitrary int; each one applies the code's own sign test (`0 <= x` of the guards
+`0 <= x <= max`, the range check of `struct.pack`, …) and hands a non-negative value to the
+`Nat` function above, which applies the upper half of the same guard.  The driver runs these. -/
+
+/-- `valid_words` on arbitrary ints: `len(words) == num_words`, then `0 <= i <= max_word` for
+    every word -/
+def validWordsZ (words : List Int) (ws nw : Nat) : Bool :=
+  words.length == nw && words.all (fun i => decide (0 ≤ i ∧ i ≤ (2 : Int) ^ ws - 1))
+
+/-- `int_to_words`: `if not 0 <= int_val <= max_int: raise IndexError` -/
+def intToWordsZ (v : Int) (ws nw : Nat) : R (List Nat) :=
+  if v < 0 then .error .index else intToWords v.toNat ws nw
+
+/-- `words_to_int`: ValueError unless `valid_words`; valid words are non-negative -/
+def wordsToIntZ (words : List Int) (ws nw : Nat) : R Nat :=
+  if validWordsZ words ws nw then .ok (orShift ws (words.map Int.toNat).reverse 0 0) else .error .value
+
+/-- `int_to_bits`: its first step is `int_to_words` -/
+def intToBitsZ (v : Int) (ws nw : Nat) (sep : List Char) : R (List Char) :=
+  if v < 0 then .error .index else intToBits v.toNat ws nw sep
+
+/-- `bin(v)` for any int: `'-0b…'` for a negative one -/
+def pyBinZ (v : Int) : List Char := if v < 0 then '-' :: pyBin (-v).toNat else pyBin v.toNat
+
+/-- `int_to_bin` has no sign test: `bin_val[2:]` of `'-0b101'` is `'b101'`, so a negative int is
+    refused (IndexError) only when its digit count + 1 exceeds `width`, and is otherwise
+    returned as `'-0b…'` -/
+def intToBinZ (v : Int) (width : Nat) : R (List Char) :=
+  let b := pyBinZ v
+  if (b.drop 2).length > width then .error .index else .ok b
+
+/-- one unsigned field of `struct.pack`: struct.error for a negative argument too -/
+def packFieldZ (size : Nat) (v : Int) : R (List Nat) :=
+  if v < 0 then .error .other else packField size v.toNat
+
+namespace V4
+/-- `ipv4.int_to_words`: `if not 0 <= int_val <= max_int: raise ValueError` -/
+def intToWordsZ (v : Int) : R (List Nat) := if v < 0 then .error .value else V4.intToWords v.toNat
+/-- `ipv4.words_to_int` -/
+def wordsToIntZ (words : List Int) : R Nat :=
+  if !validWordsZ words Gen.ipv4WordSize Gen.ipv4NumWords then .error .value
+  else V4.wordsToInt (words.map Int.toNat)
+/-- `struct.pack('>I', int_val)` -/
+def intToPackedZ (v : Int) : R (List Nat) := packFieldZ 4 v
+/-- `ipv4.int_to_arpa`: starts with `int_to_words` -/
+def intToArpaZ (v : Int) : R (List Char) := if v < 0 then .error .value else V4.intToArpa v.toNat
+end V4
+
+namespace V6
+/-- `ipv6.int_to_packed`: starts with `int_to_words(int_val, 4, 32)` -/
+def intToPackedZ (v : Int) : R (List Nat) := if v < 0 then .error .index else V6.intToPacked v.toNat
+/-- `ipv6.int_to_arpa`: `int_to_str` turns every exception of `int_to_packed` into ValueError -/
+def intToArpaZ (v : Int) : R (List Char) := if v < 0 then .error .value else V6.intToArpa v.toNat
+end V6
+
+namespace E48
+/-- `struct.pack(">HI", int_val >> 32, int_val & 0xffffffff)` on any int: `>>` is the floor
+    shift, `& 0xffffffff` the non-negative remainder mod 2^32 (MODELLED RUNTIME) -/
+def intToPackedZ (v : Int) : R (List Nat) := do
+  let hi ← packFieldZ 2 (v >>> 32)
+  let lo ← packFieldZ 4 (v % 4294967296)
+  pure (hi ++ lo)
+end E48
+
+namespace E64
+/-- `eui64.int_to_packed`: starts with `int_to_words` -/
+def intToPackedZ (v : Int) : R (List Nat) := if v < 0 then .error .index else E64.intToPacked v.toNat
+end E64
+
+/-! ## RFC 1924: the text that `base85_to_ipv6` returns -/
+
+/-- `base85_to_ipv6(addr)` = `str(IPAddress(result, 6))`: the integer of `base85ToIpv6`
+    printed by `ipv6.int_to_str` with the default (compact) dialect, i.e. the function
+    `AddrParse.intToStr be 6` that property C01 is about -/
+def base85ToIpv6Text (be : AddrParse.Backend) (s : List Char) : R (List Char) := do
+  let r ← base85ToIpv6 s
+  pure (AddrParse.intToStr be 6 r)
+
 
 end NV.Codec
